@@ -56,7 +56,7 @@ class YieldTrace(object):
     def add_seq(self, s):
         self.segs.append(("seq", s))
 
-    def as_symseq(self, interp):
+    def as_symseq(self, interp, default=None):
         segs = self.segs
         offs = []
         total = 0
@@ -77,7 +77,9 @@ class YieldTrace(object):
                     end = ops.binop(interp, "+", offs[idx], 1 if kind == "item" else v.length)
                     res = ops.ite(ops.compare(interp, "<", k, end), val, res)
             if res is None:
-                raise OutOfSubset("element of empty trace")
+                if default is None:
+                    raise OutOfSubset("element of empty trace")
+                return default()
             return res
 
         return SymSeq(length, at, "Y")
